@@ -12,14 +12,14 @@ import (
 )
 
 type SolveResult struct {
-	Status  string // unsat | sat | unknown | timeout | error
-	Solver  string
-	Time    float64
-	Model   map[string]string
-	Output  string
-	Tried   []string
+	Status     string // unsat | sat | unknown | timeout | error
+	Solver     string
+	Time       float64
+	Model      map[string]string
+	Output     string
+	Tried      []string
 	Linearized bool
-	MaxPart float64 // slowest sub-query of a multi-part obligation
+	MaxPart    float64 // slowest sub-query of a multi-part obligation
 }
 
 type solverSpec struct {
@@ -48,17 +48,32 @@ func (ex *Exec) buildQueryOpt(o *Obligation, modelTerms []*smt.Term, linearize b
 	var asserts []*smt.Term
 	asserts = append(asserts, ex.assumes[:o.NAssume]...)
 	asserts = append(asserts, o.Guard)
+	var sks []*smt.Term
 	if !o.ExpectSat {
-		asserts = append(asserts, c.Not(o.Goal))
+		// universally quantified goals are skolemised here rather than by the solver, so that the
+		// assumptions can be instantiated at the skolem constants below
+		n := 0
+		goal := ex.skolemize(o.Goal, true, &n, &sks)
+		asserts = append(asserts, c.Not(goal))
 	}
 	// ground instantiation of universally quantified assumptions at the index terms used by the goal
-	if cands := ex.instCandidates(o); len(cands) > 0 {
+	cands := ex.instCandidates(o)
+	for _, k := range sks {
+		if k.Sort == smt.Int && len(cands) < 14 {
+			cands = append(cands, k)
+		}
+	}
+	if len(cands) > 0 {
 		for i, a := range asserts {
-			asserts[i] = ex.expandForall(a, cands, true, 2)
+			if c.HasQuant(a) {
+				asserts[i] = ex.expandForall(a, cands, true, 2)
+			}
 		}
 	}
 	// definitions of recursive spec functions that are referenced
-	if len(ex.recOrder) > 0 {
+	if len(ex.recOrder) > 0 && !o.ExpectSat {
+		// (vacuity guards are checked without the unfolding axioms: definitions of total functions cannot make a
+		// reachable path unreachable, and the solvers rarely build models in their presence)
 		usedF := map[string]bool{}
 		seenF := map[int]bool{}
 		for _, a := range asserts {
@@ -142,7 +157,9 @@ func runSolver(sp solverSpec, script string, timeoutS int) (status, output strin
 // Solve first gives the primary solver one second on the exact script (and, if present, one second on
 // the linearized over-approximation); if that is not decisive all solvers in `order` are raced on both
 // for the full timeout and the first definite answer wins. For the linearized script only `unsat` counts.
-func Solve(script string, timeoutS int, order []int) *SolveResult { return Solve2(script, "", timeoutS, order) }
+func Solve(script string, timeoutS int, order []int) *SolveResult {
+	return Solve2(script, "", timeoutS, order)
+}
 
 func Solve2(script, lin string, timeoutS int, order []int) *SolveResult {
 	res := &SolveResult{Status: "unknown"}
@@ -374,6 +391,95 @@ func (ex *Exec) expandForall(t *smt.Term, cands []*smt.Term, pos bool, depth int
 				return t
 			}
 			return c.Implies(a, b)
+		}
+	}
+	return t
+}
+
+// goalConjuncts flattens a goal into conjuncts; an equation between datatype values one side of which is a
+// constructor application is replaced by the field-wise equations.
+func (ex *Exec) goalConjuncts(g *smt.Term) []*smt.Term {
+	c := ex.W.C
+	var out []*smt.Term
+	var rec func(t *smt.Term, depth int)
+	rec = func(t *smt.Term, depth int) {
+		if t.Kind == smt.KApp && t.Op == "=>" && len(t.Args) == 2 && depth < 4 {
+			// A => (B1 and B2)  splits into  A => B1,  A => B2
+			save := out
+			out = nil
+			rec(t.Args[1], depth+1)
+			parts := out
+			out = save
+			if len(parts) > 1 {
+				for _, p := range parts {
+					out = append(out, c.Implies(t.Args[0], p))
+				}
+				return
+			}
+		}
+		if t.Kind == smt.KApp && t.Op == "and" && depth < 4 {
+			for _, a := range t.Args {
+				rec(a, depth+1)
+			}
+			return
+		}
+		if t.Kind == smt.KApp && t.Op == "=" && len(t.Args) == 2 && depth < 4 {
+			if dt := ex.W.DT(t.Args[0].Sort); dt != nil && dt != ex.W.SliceDT {
+				a, b := t.Args[0], t.Args[1]
+				if (a.Kind == smt.KApp && a.Op == dt.Ctor) || (b.Kind == smt.KApp && b.Op == dt.Ctor) {
+					for i := range dt.Fields {
+						rec(c.Eq(c.Field(dt, i, a), c.Field(dt, i, b)), depth+1)
+					}
+					return
+				}
+			}
+		}
+		out = append(out, t)
+	}
+	rec(g, 0)
+	return out
+}
+
+// skolemize replaces universally quantified variables in positive positions of a goal (and existential ones
+// in negative positions) by fresh constants; the result is valid iff the input is. It does not descend below a
+// quantifier it leaves in place.
+func (ex *Exec) skolemize(t *smt.Term, pos bool, n *int, sks *[]*smt.Term) *smt.Term {
+	c := ex.W.C
+	if !c.HasQuant(t) {
+		return t
+	}
+	switch t.Kind {
+	case smt.KQuant:
+		if (pos && t.Op == "forall") || (!pos && t.Op == "exists") {
+			m := map[*smt.Term]*smt.Term{}
+			for _, b := range t.Bound {
+				k := c.Const(fmt.Sprintf("sk!%d!%s", *n, smt.Mangle(b.Op)), b.Sort)
+				*n++
+				m[b] = k
+				*sks = append(*sks, k)
+			}
+			return ex.skolemize(c.Subst(t.Args[0], m), pos, n, sks)
+		}
+		return t
+	case smt.KApp:
+		switch t.Op {
+		case "and", "or":
+			args := make([]*smt.Term, len(t.Args))
+			for i, a := range t.Args {
+				args[i] = ex.skolemize(a, pos, n, sks)
+			}
+			if t.Op == "and" {
+				return c.And(args...)
+			}
+			return c.Or(args...)
+		case "not":
+			return c.Not(ex.skolemize(t.Args[0], !pos, n, sks))
+		case "=>":
+			return c.Implies(ex.skolemize(t.Args[0], !pos, n, sks), ex.skolemize(t.Args[1], pos, n, sks))
+		case "ite":
+			if t.Sort == smt.Bool && !c.HasQuant(t.Args[0]) {
+				return c.Ite(t.Args[0], ex.skolemize(t.Args[1], pos, n, sks), ex.skolemize(t.Args[2], pos, n, sks))
+			}
 		}
 	}
 	return t
